@@ -23,6 +23,12 @@ def handle (args : List String) : String :=
     match hexToBytes hex with
     | some bs => toString (setFrom bs)
     | none => "bad-args"
+  | ["setops", baseS, hex] =>
+    -- one byte per call: bit 7 set = `remove (b & 0x7f)`, else `add b`; base 1 = `AsciiSet::new()`, 0 = `empty()`
+    match hexToBytes hex with
+    | some bs =>
+      toString (setOps (if baseS == "1" then asciiNew else 0) (bs.map (fun b => (decide (b ≥ 128), b % 128))))
+    | none => "bad-args"
   | ["decode", hex] =>
     match hexToBytes hex with
     | some bs => bytesToHex (pctDecode bs)
